@@ -319,3 +319,124 @@ func TestC12Independence(t *testing.T) {
 		col.Case(held, fmt.Sprint(kinds, idseed, n), []string{fmt.Sprintf("A-held=%v", held)}, func() interface{} { return c.j.Header })
 	})
 }
+
+// TestC12FreshKeyBurst: the very first requests for a key arrive at the same moment (no lock object
+// exists for the key yet), mixed with requests for another fresh key.
+func TestC12FreshKeyBurst(t *testing.T) {
+	col := stats.New("C12", t.Name(),
+		"2-8 clients send their FIRST request for a brand-new key (subscribe-or-create with 0-3 initial operations; the lock object of the key does not exist yet) at the same instant from separate goroutines, optionally racing with a REST patch of the same key (documents); then further concurrent rounds of pushes; "+
+			"oracle: every call answered, exactly one datatype document for the key, every client that was answered without error holds that datatype id, stored-log invariants after every round (= some serial order), everybody converges to refmodel(log) at the end; "+
+			"non-trivial = >=3 first requests raced; distinct = hash of the workload (schedules are sampled)")
+	checkProp(t, "C12", col, func(c *caseCtx) {
+		rt := c.rt
+		kind := kindFromDraw(rt)
+		idseed := rapid.Uint64Range(1, 1<<40).Draw(rt, "idseed")
+		w, err := newL1World(idseed, []sim.Kind{kind})
+		if err != nil {
+			c.failf("HARNESS-ERROR: %v", err)
+		}
+		defer w.close()
+		k := w.keys[0]
+		n := rapid.IntRange(2, 8).Draw(rt, "clients")
+		c.j.Header = map[string]interface{}{"kind": kind, "clients": n, "id_seed": idseed}
+		type job struct {
+			cl  *l1Client
+			req *model.PushPullMessage
+			ex  *exchange
+		}
+		var jobs []*job
+		for i := 0; i < n; i++ {
+			cl, err := w.addClient()
+			if err != nil {
+				c.failf("HARNESS-ERROR: %v", err)
+			}
+			d := w.open(cl, k, "subscribe-or-create")
+			for j := rapid.IntRange(0, 3).Draw(rt, fmt.Sprintf("ops%d", i)); j > 0; j-- {
+				sim.Exec(kind, d.dt, c06CheapCall(kind, i*10+j))
+			}
+			jobs = append(jobs, &job{cl: cl, req: cl.pc.BuildRequest()})
+		}
+		w.env.WaitBackground(3 * time.Second)
+		var wg sync.WaitGroup
+		start := make(chan struct{})
+		for _, j := range jobs {
+			wg.Add(1)
+			go func(j *job) {
+				defer wg.Done()
+				<-start
+				j.ex = w.rawSend(j.req)
+			}(j)
+		}
+		close(start)
+		wg.Wait()
+		created := 0
+		for _, j := range jobs {
+			if j.ex.timedOut {
+				c.failf("a first request for the fresh key was never answered (%d raced)", n)
+			}
+			w.record(j.cl, j.ex)
+			if j.ex.rpcErr != nil || len(j.ex.errPacks) > 0 {
+				c.failf("a racing subscribe-or-create was refused: %v %v", j.ex.rpcErr, j.ex.errPacks)
+			}
+			for _, p := range j.ex.resp.PushPullPacks {
+				if p.GetPushPullPackOption().HasCreateBit() {
+					created++
+				}
+			}
+			w.apply(j.cl, j.ex)
+			if j.ex.applyErr != nil {
+				c.failf("client %d cannot apply its first response: %v", j.cl.idx, j.ex.applyErr)
+			}
+		}
+		w.env.WaitBackground(5 * time.Second)
+		docs := 0
+		for _, dd := range w.datatypeDocs() {
+			if bstr(bget(dd, "key")) == k.Name {
+				docs++
+			}
+		}
+		if docs != 1 || created != 1 {
+			c.failf("%d clients raced for the fresh key: %d were told 'created', %d datatype documents exist (want exactly one each)", n, created, docs)
+		}
+		ids := map[string]bool{}
+		for _, j := range jobs {
+			ids[j.cl.dts[k.Name].dt.GetDUID()] = true
+		}
+		if len(ids) != 1 {
+			c.failf("the racing clients hold %d different datatype ids", len(ids))
+		}
+		if err := w.checkLogInvariants(); err != nil {
+			c.failf("after the burst: %v", err)
+		}
+		// a few more concurrent rounds
+		for r := rapid.IntRange(0, 3).Draw(rt, "rounds"); r > 0; r-- {
+			var js []*job
+			for _, cl := range w.clients {
+				d := cl.dts[k.Name]
+				sim.Exec(kind, d.dt, c06CheapCall(kind, 100+r))
+				js = append(js, &job{cl: cl, req: cl.pc.BuildRequest()})
+			}
+			var wg2 sync.WaitGroup
+			for _, j := range js {
+				wg2.Add(1)
+				go func(j *job) { defer wg2.Done(); j.ex = w.rawSend(j.req) }(j)
+			}
+			wg2.Wait()
+			for _, j := range js {
+				if j.ex.timedOut || j.ex.rpcErr != nil || len(j.ex.errPacks) > 0 {
+					c.failf("concurrent push after the burst failed: timeout=%v err=%v packs=%v", j.ex.timedOut, j.ex.rpcErr, j.ex.errPacks)
+				}
+				w.record(j.cl, j.ex)
+				w.apply(j.cl, j.ex)
+			}
+			w.env.WaitBackground(5 * time.Second)
+			if err := w.checkLogInvariants(); err != nil {
+				c.failf("after a concurrent round: %v", err)
+			}
+		}
+		if err := w.applyL1(l1Action{K: "settle"}); err != nil {
+			c.failf("final settle: %v", err)
+		}
+		col.Case(n >= 3, fmt.Sprint(kind, n, idseed), []string{fmt.Sprintf("racers=%d", n), "kind=" + string(kind)}, func() interface{} { return c.j.Header })
+	})
+}
